@@ -36,7 +36,7 @@ var c04Catalogue = []string{
 	"pad-wrong-value", "pad-wrong-count", "pad-count-over-15", "pad-count-16", "integrity-pad-not-ff", "different-body-unsigned-same-seq",
 	"pad-sequential-17", "pad-sequential-24", "pad-sequential-40", "pad-sequential-200", "pad-sequential-255", "pad-last-byte-wrong", "pad-one-byte-wrong",
 	"pad-two-bytes-same-flip", "pad-two-bytes-swapped", "pad-all-zero-3", "pad-all-zero-7", "pad-all-zero-11", "pad-all-zero-15", "pad-all-ff-4", "pad-shifted-by-one", "pad-multi-a", "pad-multi-b", "pad-multi-c",
-	"pad-16-garbage", "pad-16-zero", "pad-16-garbage-long", "baseline-authentic-only", "signed-k1-first-16", "signed-k1-first-12", "signed-k2", "signed-sik",
+	"pad-16-garbage", "pad-16-zero", "pad-16-garbage-long", "baseline-authentic-only", "signed-k1-first-16", "signed-k1-first-12", "signed-k2", "signed-sik", "v15-wrapper-none", "v15-wrapper-none-bmcsid", "v15-wrapper-md5", "v15-wrapper-password",
 	"sid-bmc-signed", "sid-bmc-unsigned", "sid-zero-signed", "sid-plus1-signed", "sid-minus1-signed", "sid-swapped-signed", "sid-highbit-signed", "sid-inverted-signed", "sid-bmc-plus1-signed",
 }
 
@@ -128,6 +128,9 @@ func c04Run(run *ev.Run, o c04One) {
 	r := rng(o.Seed+int64(o.Suite), "c04"+o.Cmd)
 	cfg := defaultCfg(r)
 	su := stdSuites()[o.Suite%9]
+	if strings.HasPrefix(o.Kind, "v15-") && o.Forever {
+		cfg.SID = 1 // a BMC that numbers its sessions from 1, as the console does
+	}
 	e := NewEnv(cfg, memtr.Window)
 	authBody := map[string][]byte{"guid": rbytes(r, 16), "devid": {0x20, 0x81, 0x03, 0x15, 0x02, 0xbf, 0x57, 0x01, 0x00, 0x34, 0x12, 1, 2, 3, 4}, "chassis": nil}[o.Cmd]
 	forgedBody := map[string][]byte{"guid": rbytes(r, 16), "devid": {0x21, 0x01, 0x09, 0x99, 0x51, 0x00, 0x11, 0x22, 0x33, 0x78, 0x56, 9, 9, 9, 9}, "chassis": nil}[o.Cmd]
@@ -305,6 +308,21 @@ func c04Forge(o c04One, b *refbmc.BMC, auth []byte, forgedBody []byte, r interfa
 		return se.Wrap(msg, refbmc.WrapOpts{AuthCodeSet: true, AuthCode: randBytes(il)}), true
 	case "wrong-k1":
 		return se.Wrap(msg, refbmc.WrapOpts{Key1: randBytes(len(se.K1))}), true
+	case "v15-wrapper-none", "v15-wrapper-none-bmcsid", "v15-wrapper-md5", "v15-wrapper-password":
+		// the forged message in an IPMI v1.5 session wrapper: no RMCP+ integrity at all
+		sid := se.ConsoleSID
+		if o.Kind == "v15-wrapper-none-bmcsid" {
+			sid = se.BMCSID
+		}
+		at := map[string]byte{"v15-wrapper-none": 0, "v15-wrapper-none-bmcsid": 0, "v15-wrapper-md5": 2, "v15-wrapper-password": 4}[o.Kind]
+		d := []byte{at}
+		d = append(d, refbmc.LE32(se.OutSeq+1)...)
+		d = append(d, refbmc.LE32(sid)...)
+		if at != 0 {
+			d = append(d, randBytes(16)...)
+		}
+		d = append(d, byte(len(msg)))
+		return refbmc.RMCP(append(d, msg...)), true
 	case "baseline-authentic-only":
 		return nil, false // nothing is forged: the authentic reply alone must complete the command
 	case "signed-k1-first-16", "signed-k1-first-12":
